@@ -99,6 +99,42 @@ func junkFiles(r *rng) []seedFile {
 			out = append(out, seedFile{fmt.Sprintf("jpeg-second-sof-short-%d-%x", l, m), "none", d, 0})
 		}
 	}
+	// dimension fields that are exactly zero: a JPEG frame header that defers its line count to a DNL segment
+	// (lines = 0), zero samples per line, a PNG or VP8 header with a zero dimension — the format loaders take the
+	// fields as they are
+	for k := 0; k < 4; k++ {
+		jd := randJpegDesc(r)
+		jd.segsBefore = jd.segsBefore[:min(1, len(jd.segsBefore))]
+		if k%2 == 0 {
+			jd.h = 0
+		} else {
+			jd.w = 0
+		}
+		if k >= 2 {
+			jd.w, jd.h = 0, 0
+		}
+		d, n := jd.build()
+		out = append(out, seedFile{fmt.Sprintf("jpeg-zero-dim-%d", k), "jpeg", d, n})
+	}
+	for k := 0; k < 2; k++ {
+		pd := randPngDesc(r, false, nil)
+		pd.pre, pd.post = nil, nil
+		if k == 0 {
+			pd.w = 0
+		} else {
+			pd.h = 0
+		}
+		d, n := pd.build()
+		out = append(out, seedFile{fmt.Sprintf("png-zero-dim-%d", k), "png", d, n})
+		wd := randWebpDesc(r, "VP8", nil)
+		if k == 0 {
+			wd.w = 0
+		} else {
+			wd.h = 0
+		}
+		d, n = wd.build()
+		out = append(out, seedFile{fmt.Sprintf("webp-vp8-zero-dim-%d", k), "webp", d, n})
+	}
 	// the same after a complete ICC profile chunk
 	out = append(out, seedFile{"jpeg-icc-then-short-sof", "none", append(append(append([]byte{0xff, 0xd8}, iccApp2(1, 1, []byte("profile")).bytes()...), 0xff, 0xc0, 0x00, 0x04, 0x08, 0x00), 0xff, 0xd9), 0})
 	return out
